@@ -51,6 +51,7 @@ pub enum Error {
     Syntax(SyntaxError),
     IllFormed(IllFormedError),
     Encoding(EncodingError),
+    Namespace(NamespaceError),
 }
 impl vstd::std_specs::convert::FromSpecImpl<SyntaxError> for Error {
     open spec fn obeys_from_spec() -> bool { true }
@@ -80,6 +81,17 @@ impl From<IoError> for Error {
         ensures r is Io
     {
         Self::Io(Arc::new(error))
+    }
+//@end
+}
+impl vstd::std_specs::convert::FromSpecImpl<NamespaceError> for Error {
+    open spec fn obeys_from_spec() -> bool { true }
+    open spec fn from_spec(e: NamespaceError) -> Self { Error::Namespace(e) }
+}
+impl From<NamespaceError> for Error {
+//@extract errors::From<NamespaceError>::from | src/errors.rs :: impl From<NamespaceError> for Error :: fn from | serves=C05
+    fn from(error: NamespaceError) -> Self {
+        Self::Namespace(error)
     }
 //@end
 }
